@@ -94,18 +94,18 @@ MODES = {
 MODE_NAMES = sorted(MODES)
 
 
-def text_of(stages, k, mode="data-iter"):
+def text_of(stages, k, mode="data-iter", conv="camel"):
     t = sc.pipeline_text(MODES[mode][0], stages, probe=True)
-    return t if k is None else "%s.take(%d)" % (t, k)
+    return sc.conv_text(t if k is None else "%s.take(%d)" % (t, k), conv)
 
 
-def _run_once(k0, stages, k, mode, timeout):
-    root, shape, where, conv = MODES[mode]
+def _run_once(k0, stages, k, mode, timeout, conv="camel"):
+    root, shape, where, convert = MODES[mode]
     recs = bool(stages) and stages[0][0] == "attr"      # member projection: the source yields records {a: n, b: 0}
     src = (Source if shape == "iter" else Feed)(k0, recs)
     sc.TICKS.clear()
-    text = text_of(stages, k, mode)
-    ctx = sc.context().create_child_context()
+    text = text_of(stages, k, mode, conv)
+    ctx = sc.context(conv).create_child_context()
     data = None
     if where == "data":
         data = src
@@ -115,17 +115,19 @@ def _run_once(k0, stages, k, mode, timeout):
         ctx["feed"] = src
     else:
         ctx.register_function(lambda: src, name="feed")
-    o = sc.evaluate(text, data, timeout=timeout, ctx=ctx, eng=None if conv else sc.engine_noconv())
+    o = sc.evaluate(text, data, timeout=timeout, ctx=ctx, eng=None if convert else sc.engine_noconv())
     return o, src, text
 
 
-def observe(k0, stages, k, mode="data-iter"):
+def observe(k0, stages, k, mode="data-iter", conv=None):
     """-> (observation, pulls, ticks total, ticks per lambda, yaql text)"""
+    if conv is None:           # the naming convention of the context rotates with the case (the model does not know it)
+        conv = sc.CONVS[(len(stages) + (k or 0) + k0) % 3]
     patient = sc.WATCHDOG_HITS[0] < 3
-    o, src, text = _run_once(k0, stages, k, mode, 30 if patient else 4)
+    o, src, text = _run_once(k0, stages, k, mode, 30 if patient else 4, conv)
     if patient and o[0] == "err" and o[1] == "EOther" and o[2].startswith("watchdog") and src.pulls <= CAP:
         # no answer although the source was barely touched: machine load, not the pipeline - once more
-        o, src, text = _run_once(k0, stages, k, mode, 60)
+        o, src, text = _run_once(k0, stages, k, mode, 60, conv)
         if o[0] == "err" and o[1] == "EOther" and o[2].startswith("watchdog"):
             sc.WATCHDOG_HITS[0] += 1
     ticks = dict(sc.TICKS)
